@@ -294,9 +294,10 @@ for es, P, PT in ((2, "pxe2", "PxE2"), (1, "pxe1", "PxE1")):
                 continue
             reg("C13", H("c13_%s_%s_%d" % (P, nm, N), "c13::%s::arith" % P, gen="%d, %d" % (N, op), unwind=34, timeout=cost, tier=q if N <= 16 else "thorough",
                          funcs=["%s<%d>: %s" % (PT, N, "+-*"[op])], space_bits=2 * N, bound="every pair of %d-bit patterns (low %d bits zero)" % (N, 32 - N)))
-        reg("C13", H("c13_%s_div_%d" % (P, N), "c13::%s::div" % P, gen=str(N), unwind=34, timeout=600, tier=q, stubs=[LLDIV], funcs=["%s<%d>: /" % (PT, N)], space_bits=2 * N,
+        q32 = "quick" if N == 32 else q   # N = 32 is where shift amounts reach the word size: its cheap harnesses are always in quick
+        reg("C13", H("c13_%s_div_%d" % (P, N), "c13::%s::div" % P, gen=str(N), unwind=34, timeout=600, tier=q32, stubs=[LLDIV], funcs=["%s<%d>: /" % (PT, N)], space_bits=2 * N,
                      bound="every pair of %d-bit patterns, modulo the softposit::lldiv contract (stubbed, quotient shared)" % N))
-        reg("C13", H("c13_%s_round_%d" % (P, N), "c13::%s::round" % P, gen=str(N), unwind=34, timeout=300, tier=q, funcs=["%s<%d>::round" % (PT, N)], space_bits=N, bound="every %d-bit pattern" % N))
+        reg("C13", H("c13_%s_round_%d" % (P, N), "c13::%s::round" % P, gen=str(N), unwind=34, timeout=300, tier=q32, funcs=["%s<%d>::round" % (PT, N)], space_bits=N, bound="every %d-bit pattern" % N))
         if P == "pxe2" and N <= 16:
             reg("C13", H("c13_%s_sqrt_%d" % (P, N), "c13::%s::sqrt" % P, gen=str(N), unwind=34, timeout=900 if N <= 12 else 3600, tier=q if N <= 12 else "thorough", funcs=["%s<%d>::sqrt" % (PT, N)], space_bits=N,
                          bound="every %d-bit pattern (integer root as a nondeterministic witness)" % N))
@@ -312,21 +313,28 @@ for es, P, PT in ((2, "pxe2", "PxE2"), (1, "pxe1", "PxE1")):
             for op, nm in ((0, "add"), (1, "sub")):
                 for same, lo, hi, sec in P32_ADD_SLICES:
                     reg("C13", H("c13_%s_%s_%d_%s_d%d_%d" % (P, nm, N, "same" if same else "diff", lo, hi), "c13::%s::addsub_slice" % P,
-                                 gen="%d, %d, %s, %d, %d" % (N, op, "true" if same else "false", lo, hi), unwind=34, timeout=max(8 * sec, 900), tier="thorough",
+                                 gen="%d, %d, %s, %d, %d" % (N, op, "true" if same else "false", lo, hi), unwind=34, timeout=max(8 * sec, 900),
+                                 tier="quick" if N == 32 and lo >= 41 else "thorough",
                                  funcs=["%s<%d>: %s" % (PT, N, "+-"[op])], space_bits=2 * N, slice_of="%s<%d> %s over all real pairs" % (PT, N, nm),
                                  bound="real %d-bit operands, effective signs %s, scale distance in [%d,%d]" % (N, "equal" if same else "opposite", lo, hi)))
 # mul_add family for wide N: the alignment partition of c05 (P32_FMA_D is defined with C05 above), thorough only
 C13_WIDE_FMA = [20, 24, 28, 32]
 for es, P, PT in ((2, "pxe2", "PxE2"), (1, "pxe1", "PxE1")):
     for N in C13_WIDE_FMA:
-        reg("C13", H("c13_%s_fma_special_%d" % (P, N), "c13::%s::fma_special" % P, gen=str(N), unwind=40, timeout=1800, tier="thorough",
+        reg("C13", H("c13_%s_fma_special_%d" % (P, N), "c13::%s::fma_special" % P, gen=str(N), unwind=40, timeout=3600, tier="thorough",
                      funcs=["%s<%d>::mul_add/mul_sub/sub_product" % (PT, N)], space_bits=2 * N + 2, bound="every triple of %d-bit patterns with a zero or NaR operand" % N))
+        _wi = 0
         for same in (True, False):
             for lo, hi in P32_FMA_D:
                 nm = "c13_%s_mul_add_%d_%s_d%s_%s" % (P, N, "same" if same else "diff", str(lo).replace("-", "m"), str(hi).replace("-", "m"))
-                reg("C13", H(nm, "c13::%s::fma_slice" % P, gen="%d, 0, %s, %d, %d" % (N, "true" if same else "false", lo, hi), unwind=40, timeout=2400, tier="thorough",
+                _q24 = P == "pxe2" and N == 24      # quick: PxE2<24> far-addend classes always, two of the other 16 classes per seed
+                _far = hi <= -40
+                reg("C13", H(nm, "c13::%s::fma_slice" % P, gen="%d, 0, %s, %d, %d" % (N, "true" if same else "false", lo, hi), unwind=40, timeout=2400,
+                             tier="quick" if _q24 and _far else "thorough", rot=(_wi, 8) if _q24 and not _far else None,
                              funcs=["%s<%d>::mul_add" % (PT, N)], space_bits=3 * N, slice_of="%s<%d> mul_add over all real triples" % (PT, N),
                              bound="real %d-bit operands, sign(a*b) %s sign(c), scale(a)+scale(b)-scale(c) in [%d,%d]" % (N, "==" if same else "!=", lo, hi)))
+                if not _far:
+                    _wi += 1
 for op, nm in ((0, "add"), (1, "sub"), (2, "mul")):
     reg("C13", H("c13_pxe1_agree16_" + nm, "c13::pxe1::agree16", gen=str(op), unwind=34, timeout=900, tier="quick", funcs=["PxE1<16> vs P16E1: " + nm], space_bits=32, bound="every pair of 16-bit patterns"))
     reg("C13", H("c13_pxe2_agree32_" + nm, "c13::pxe2::agree32", gen=str(op), unwind=34, timeout=3600, tier="thorough", funcs=["PxE2<32> vs P32E2: " + nm], space_bits=64, bound="every pair of 32-bit patterns"))
@@ -394,7 +402,7 @@ for h in PLAN["C01"] + PLAN["C05"] + PLAN["C06"] + PLAN["C04"]:
     if h.name.startswith(("c01_p8", "c01_p16", "c05_p8", "c05_p16", "c06_p8", "c06_p16", "c04_q8", "c04_q16", "c01_p32_div", "c01_p32_mul", "c04_q32_to_posit", "c06_p32_sqrt_f4", "c05_p32_special")) and "bounded" not in h.name and "spell" not in h.name:
         reg("C16", h)
 for h in PLAN["C13"] + PLAN["C14"]:
-    if h.tier == "quick" and any(h.name.endswith("_%d" % k) for k in (2, 3, 5, 8, 16)):
+    if h.tier == "quick" and any(h.name.endswith("_%d" % k) for k in (2, 3, 5, 8, 16, 32)):
         reg("C16", h)
 for h in PLAN["C11"] if "C11" in PLAN else []:
     pass
